@@ -4,6 +4,7 @@
 pub mod engine;
 pub mod exec;
 pub mod hist;
+pub mod pipe;
 pub mod profiles;
 pub mod subscribers;
 pub mod tape;
